@@ -104,6 +104,10 @@ class Extractor:
             pt = self.passthrough(n)
             if pt is not None:
                 return self.ev(call_args(n)[pt], env, depth + 1)
+            if k == "mcall" and n["name"] == "build" and (callee(n) or "") == CTX + "::build":
+                cl = peel(n["args"][0])
+                if cl.get("k") == "closure":
+                    return self.ev(cl["body"], env, depth + 1)
             b = builder_call(n)
             if b is not None:
                 args = n["args"] if k == "mcall" else n["args"][1:]
